@@ -1,5 +1,6 @@
 """C19 — sight click counts are the angular correction divided by the click value."""
 from vlib.common import Corr, Failure, f2b, import_repo
+from vlib import shotgen as sg
 
 ID = 'C19'
 GENS = []
@@ -90,7 +91,16 @@ def correspondence(chk, drv):
         cn.add(f'sight_new {fp} {opt_raw(pbc, sc, "scale") if sc is not None else "-"} {sc1} {hh} {vv}', ans, repr(args))
         if s is not None:
             sights.append(s)
+    by_dim = {}
+    for u in U:
+        by_dim.setdefault(type(u(1.0)).__name__, []).append(u)
     for s in sights:
+        # between construction and use: the settings may change and the owner of the quantities may re-label them
+        if rng.random() < 0.5:
+            pbc.PreferredUnits.distance = rng.choice(by_dim['Distance'])
+            pbc.PreferredUnits.adjustment = rng.choice(by_dim['Angular'])
+        if rng.random() < 0.5:
+            sg.scramble_units(pbc, rng, s)
         for _ in range(2):
             td = rng.choice(DU)(rng.uniform(20, 2000))
             drop = rng.choice(AU)(rng.uniform(-20, 20))
@@ -100,6 +110,7 @@ def correspondence(chk, drv):
             ca.add(f'sight_adj {s.focal_plane} {f2b(s.scale_factor.raw_value)} {f2b(s.h_click_size.raw_value)} '
                    f'{f2b(s.v_click_size.raw_value)} {f2b(td.raw_value)} {f2b(drop.raw_value)} {f2b(wind.raw_value)} {f2b(mag)}',
                    'f%d f%d' % (f2b(r.vertical), f2b(r.horizontal)), str(s))
+    pbc.PreferredUnits.defaults()
     for c in (cn, ca):
         r = c.finish(drv)
         chk.corr.append(r)
@@ -128,18 +139,23 @@ def search(chk, broken):
         h, v = hu(rng.uniform(0.05, 1)), vu(rng.uniform(0.05, 1))
         cal = rng.choice(DU)(rng.uniform(50, 300))
         s = pbc.Sight(fp, cal, h, v)
+        cal_raw = cal.raw_value
+        if rng.random() < 0.5:     # a multi-step history: settings change / the caller re-labels its own quantities after construction
+            pbc.PreferredUnits.distance = rng.choice([U.Meter, U.Yard, U.Foot, U.Kilometer])
+            sg.scramble_units(pbc, rng, s, cal)
         td = rng.choice(DU)(rng.uniform(30, 1500))
         mag = rng.uniform(1, 20)
         drop, wind = rng.choice(AU)(rng.uniform(-10, 10)), rng.choice(AU)(rng.uniform(-10, 10))
         hr, vr = h.raw_value, v.raw_value   # nominal clicks in radians, read before the call
         if rng.random() < 0.3:
-            row = pbc.TrajectoryData(0.1, td, U.MPS(800), 2.0, U.Meter(0), U.Meter(0), drop, U.Meter(0), wind, td, U.Radian(0), 0, 0,
-                                     U.Joule(1), U.Pound(1), 0)
+            # a row of an inclined shot: its look_distance (range along the sight line) differs from its distance
+            row = pbc.TrajectoryData(0.1, td, U.MPS(800), 2.0, U.Meter(0), U.Meter(0), drop, U.Meter(0), wind,
+                                     U.Inch(td.raw_value * rng.choice([1.0, 1.1034, 0.8])), U.Radian(0), 0, 0, U.Joule(1), U.Pound(1), 0)
             r = s.get_trajectory_adjustment(row, mag)
         else:
             r = s.get_adjustment(td, drop, wind, mag)
         evals += 1
-        k_eff = {'FFP': 1.0, 'SFP': cal.raw_value / td.raw_value * mag, 'LWIR': 1.0 / mag}[fp]
+        k_eff = {'FFP': 1.0, 'SFP': cal_raw / td.raw_value * mag, 'LWIR': 1.0 / mag}[fp]
         ev, eh = drop.raw_value / (vr * k_eff), wind.raw_value / (hr * k_eff)
         if abs(r.vertical - ev) > 1e-9 * abs(ev) + 1e-300 or abs(r.horizontal - eh) > 1e-9 * abs(eh) + 1e-300:
             chk.failures.append(Failure(f'clicks:{fp}',
@@ -148,6 +164,7 @@ def search(chk, broken):
                                         {'op': 'clicks', 'fp': fp, 'h_click_rad': hr, 'v_click_rad': vr, 'cal_in': cal.raw_value,
                                          'td_in': td.raw_value, 'mag': mag, 'drop_rad': drop.raw_value, 'wind_rad': wind.raw_value,
                                          'observed': [r.vertical, r.horizontal], 'expected': [ev, eh]}))
+    pbc.PreferredUnits.defaults()
     # validation
     for args, exc in [(('XXX', U.Meter(100), U.Mil(0.1), U.Mil(0.1)), ValueError), (('SFP', None, U.Mil(0.1), U.Mil(0.1)), ValueError),
                       (('FFP', None, U.Mil(0), U.Mil(0.1)), TypeError), (('FFP', None, U.Mil(0.1), U.Mil(-1)), TypeError),
